@@ -301,6 +301,20 @@ def check(res, tier):
         g = ";".join("%d:%s" % (k, ",".join(map(str, graph[k]))) for k in graph)
         reqs.append("modinit 50 %s %s" % (g, ",".join(map(str, flat(main_imports)))))
     seqs = [[int(x) for x in a.split(",") if x] for a in corr.run_lines(model, reqs)]
+    # what a directory import brings in is decided by the model (DDP.Modules.dirImport); the generator's expansion must agree
+    dreqs, dwant = [], []
+    for n, graph, listed, vals, main_imports, dirs, stmts in cases:
+        for st_ in list(main_imports) + [x for v in stmts.values() for x in v]:
+            if isinstance(st_, tuple):
+                _, d, rec, members = st_
+                below = ["%s=%d" % ((dk[len(d) + 1:] + "/" if dk != d else "") + "m%d.ddp" % k, k) for k, dk in sorted(dirs.items()) if dk == d or dk.startswith(d + "/")]
+                dreqs.append("dirwalk %d %s" % (1 if rec else 0, ",".join(below) or "-"))
+                dwant.append(",".join(str(m) for m in members))
+    for rq, want, got in zip(dreqs, dwant, corr.run_lines(model, dreqs)):
+        res.evaluations += 1
+        if want != got:
+            res.violation("dirwalk:" + rq, "the generator's expansion of a directory import (%s) differs from DDP.Modules.dirImport (%s)" % (want, got),
+                          {"model_request": rq, "model": got, "generator": want, "kind": "correspondence"}, has_input=False)
     jobs, exps = [], []
     cfgs = [pipeline.Config(opt=1)] if quick else [pipeline.Config(opt=0), pipeline.Config(opt=2), pipeline.Config(opt=1, module_link=False)]
     for case, seq in zip(cases, seqs):
@@ -392,5 +406,5 @@ def check(res, tier):
                 "directory) must be rejected with a diagnostic; directories without modules must be answered (compiled or rejected, no crash); "
                 "half of the graphs place modules in pkg/ and pkg/tief/ and use (recursive) directory imports, whose modules arrive in "
                 "filepath.WalkDir order")
-    res.assumptions += ["a directory import stands for its modules in lexical path order (filepath.WalkDir); the expansion is done by the harness, the model sees the expanded import lists",
+    res.assumptions += ["a directory import stands for the modules DDP.Modules.dirImport lists (entries in lexical order, sub-directories in place: the contract of filepath.WalkDir)",
                         "the model walks a DAG without in-progress marks; import cycles are outside it and must be rejected by the front end (checked)"]
